@@ -1,8 +1,173 @@
 import SLModel.Drv.Util
+import SLModel.Core.Frontend
 open Lean
 namespace SL.Drv.C25
+open SL.Drv SL.Frontend
 
-/-- stub: no model operations for C25 yet -/
-def handle (_req : Json) : Except String Json := .error "C25: not implemented"
+/-! JSON glue for `Core/Frontend`: `ν := Json` (query nodes), `J := Json` (opaque subtrees),
+`κ := String` (ids), `δ := Json` (a document wrapped as `{"id": <string|null>, "doc": {…}}`,
+where `id = null` means that the library rejects the document — decided by the harness with
+the real `Schema::validate_document`). -/
+
+def optStr (j : Json) (k : String) : Option String :=
+  match j.getObjVal? k with
+  | .ok (.str s) => some s
+  | _ => none
+
+def optNat (j : Json) (k : String) : Option Nat :=
+  match j.getObjVal? k with
+  | .ok v => match v.getNat? with | .ok n => some n | .error _ => none
+  | .error _ => none
+
+def objList (j : Json) : List (String × Json) :=
+  match j with
+  | .obj kvs => kvs.toList
+  | _ => []
+
+def aggsOf (j : Json) : Except String (AggsArg Json) := do
+  match getOpt j "aggs" with
+  | none => return .absent
+  | some a =>
+    match ← getStr a "kind" with
+    | "absent" => return .absent
+    | "blank" => return .blank
+    | "invalid" => return .invalid
+    | "parsed" => return .parsed (objList (← a.getObjVal? "map"))
+    | k => throw s!"C25: unknown aggs kind {k}"
+
+def cliArgsOf (j : Json) : Except String (CliArgs Json) := do
+  let d : CliArgs Json := {}
+  return {
+    query := optStr j "query"
+    limit := getNatD j "limit" d.limit
+    execution := match optStr j "execution" with | some s => s.toList | none => d.execution
+    bmwBlockSize := optNat j "bmw_block_size"
+    fields := (optStr j "fields").map String.toList
+    returnStored := getBoolD j "return_stored" false
+    highlight := optStr j "highlight"
+    cursor := optStr j "cursor"
+    returnHits := getBoolD j "return_hits" true
+    sort := (optStr j "sort").map String.toList
+    aggs := ← aggsOf j }
+
+def execStr : Exec → String
+  | .bm25 => "bm25" | .wand => "wand" | .bmw => "bmw"
+
+def sortJson (s : SortSpec) : Json :=
+  let base : List (String × Json) := [("field", Json.str (String.ofList s.field))]
+  match s.order with
+  | none => Json.mkObj base
+  | some .asc => Json.mkObj (base ++ [("order", Json.str "asc")])
+  | some .desc => Json.mkObj (base ++ [("order", Json.str "desc")])
+
+def optJ (k : String) (v : Option Json) : List (String × Json) :=
+  match v with
+  | some x => [(k, x)]
+  | none => []
+
+/-- the request in the repository's own serde format -/
+def requestJson (r : Request Json Json) : Json :=
+  Json.mkObj <|
+    [("query", match r.query with | .str s => Json.str s | .node n => n),
+     ("limit", (r.limit : Json)),
+     ("return_hits", (r.returnHits : Json)),
+     ("sort", Json.arr (r.sort.map sortJson).toArray),
+     ("execution", (execStr r.execution : Json)),
+     ("return_stored", (r.returnStored : Json)),
+     ("aggs", Json.mkObj r.aggs),
+     ("explain", (r.explain : Json)),
+     ("profile", (r.profile : Json))] ++
+    optJ "fields" (r.fields.map fun fs => Json.arr (fs.map fun f => Json.str (String.ofList f)).toArray) ++
+    optJ "filter" r.filter ++
+    optJ "candidate_size" (r.candidateSize.map fun (n : Nat) => (n : Json)) ++
+    optJ "cursor" (r.cursor.map Json.str) ++
+    optJ "bmw_block_size" (r.bmwBlockSize.map fun (n : Nat) => (n : Json)) ++
+    optJ "fuzzy" r.fuzzy ++
+    optJ "highlight_field" (r.highlightField.map Json.str) ++
+    optJ "highlight" r.highlight ++
+    optJ "collapse" r.collapse ++
+    (if r.suggest.isEmpty then [] else [("suggest", Json.mkObj r.suggest)]) ++
+    optJ "rescore" r.rescore
+
+def cliErrStr : CliErr → String
+  | .queryRequired => "query_required"
+  | .limitZero => "limit_zero"
+  | .badSortOrder o => "bad_sort_order:" ++ String.ofList o
+  | .badAggs => "bad_aggs"
+
+def idOfJson (d : Json) : Option String := optStr d "id"
+
+def strList (j : Json) (k : String) : Except String (List String) := do
+  let a ← getArr j k
+  a.toList.mapM (·.getStr?)
+
+def frontOf (j : Json) : Except String (FrontOp String Json) := do
+  match ← getStr j "kind" with
+  | "cli_init" => return .cliInit
+  | "cli_add" => return .cliAdd (getArrD j "docs").toList
+  | "cli_update" => return .cliUpdate (getArrD j "docs").toList
+  | "cli_delete" => return .cliDelete (← strList j "ids")
+  | "cli_commit" => return .cliCommit
+  | "cli_compact" => return .cliCompact
+  | "http_init" => return .httpInit
+  | "http_add" => return .httpAdd (getArrD j "docs").toList
+  | "http_bulk" => return .httpBulk (getArrD j "docs").toList
+  | "http_delete" => return .httpDelete (← strList j "ids")
+  | "http_commit" => return .httpCommit (getBoolD j "refresh" false)
+  | "http_compact" => return .httpCompact
+  | "http_refresh" => return .httpRefresh
+  | "ffi_open" => return .ffiOpen
+  | "ffi_add" => return .ffiAdd (← j.getObjVal? "doc")
+  | "ffi_commit" => return .ffiCommit
+  | k => throw s!"C25: unknown front-end op {k}"
+
+def libJson : LibOp String Json → Json
+  | .createIdx => Json.mkObj [("op", "create_idx")]
+  | .openIdx c => Json.mkObj [("op", "open_idx"), ("create", c)]
+  | .newWriter => Json.mkObj [("op", "new_writer")]
+  | .add d => Json.mkObj [("op", "add"), ("doc", d)]
+  | .delete ids => Json.mkObj [("op", "delete"), ("ids", Json.arr (ids.map Json.str).toArray)]
+  | .commit => Json.mkObj [("op", "commit")]
+  | .rollbackIfFailed => Json.mkObj [("op", "rollback_if_failed")]
+  | .dropWriter => Json.mkObj [("op", "drop_writer")]
+  | .compact => Json.mkObj [("op", "compact")]
+  | .refresh => Json.mkObj [("op", "refresh")]
+
+def logJson : LogOp String Json → Json
+  | .put id d => Json.mkObj [("put", id), ("doc", d)]
+  | .del id => Json.mkObj [("del", id)]
+
+def stateJson (s : St String Json) : Json :=
+  Json.mkObj [
+    ("committed", Json.arr (s.committed.map fun kv => Json.arr #[Json.str kv.1, kv.2]).toArray),
+    ("log", Json.arr (s.log.map logJson).toArray),
+    ("failed", s.failed)]
+
+def handle (req : Json) : Except String Json := do
+  let op ← getStr req "op"
+  match op with
+  | "cli_request" =>
+    let a ← cliArgsOf (← req.getObjVal? "args")
+    match (cliRequest a : Except CliErr (Request Json Json)) with
+    | .ok r => return Json.mkObj [("result", "ok"), ("request", requestJson r)]
+    | .error e => return Json.mkObj [("result", "error"), ("error", cliErrStr e)]
+  | "ffi_request" =>
+    -- `node`: the query text parsed as a `QueryNode` by the harness (null when it is not one)
+    let node := getOpt req "node"
+    let q ← getStr req "query"
+    let limit ← getNat req "limit"
+    let aggs ← aggsOf req
+    match ffiRequest (fun _ => node) q limit (optStr req "cursor") aggs with
+    | some r => return Json.mkObj [("result", "ok"), ("request", requestJson r)]
+    | none => return Json.mkObj [("result", "none")]
+  | "denote" =>
+    let f ← frontOf (← req.getObjVal? "front")
+    return Json.mkObj [("ops", Json.arr ((denote f).map libJson).toArray)]
+  | "run" =>
+    -- the contents semantics over a whole front-end script
+    let script ← (← getArr req "script").toList.mapM frontOf
+    let s := runFront idOfJson (⟨[], [], false⟩ : St String Json) script
+    return Json.mkObj [("state", stateJson s)]
+  | _ => throw s!"C25: unknown op {op}"
 
 end SL.Drv.C25
